@@ -112,9 +112,15 @@ Ltac tie_abs :=
   | |- context [Rcase_abs ?x] => destruct (Rcase_abs x)
   | H : context [Rcase_abs ?x] |- _ => destruct (Rcase_abs x)
   end.
+(* |a/b| = |a|/|b| and |a-b| = |b-a| spellings *)
+Ltac tie_rabs :=
+  unfold Rdiv; repeat rewrite Rabs_mult; repeat rewrite Rabs_inv;
+  first [ reflexivity
+        | (repeat f_equal; first [reflexivity | apply Rabs_minus_sym | lra])
+        | (rewrite Rabs_minus_sym; first [reflexivity | (repeat f_equal; first [reflexivity | lra])]) ].
 Ltac tie_real :=
   tie_bools; tie_nat; tie_nz; tie_push; simpl Z.of_nat;
-  first [ reflexivity | lra | (field; repeat split; first [assumption | lra | auto]) | (tie_abs; tie_bools; first [lra | nra])
+  first [ reflexivity | lra | tie_rabs | (field; repeat split; first [assumption | lra | auto]) | (tie_abs; tie_bools; first [lra | nra])
         | (field_simplify_eq; [first [lra | nra | ring] | repeat split; first [assumption | lra | auto]]) ].
 
 Ltac tie_comp :=
